@@ -60,6 +60,8 @@ def rec_scenarios(rng, n, retention):
              "r rec 61 sp 68747470733a2f2f737032 10", "r snap", "r save", "r load -", "r snap"]]
     while len(scen) < n:
         ops = ["r reset"]
+        if rng.random() < 0.1:
+            ops += ["r load -", "r snap"]          # first start: no file yet
         users = rng.sample(USERS, rng.choice([1, 1, 2, 3]))
         mode = rng.choice(["boundary", "boundary", "old-to-new", "recent", "ancient"])
         age = {"boundary": retention + rng.randrange(0, 12), "old-to-new": retention + rng.randrange(0, 5000),
@@ -120,6 +122,7 @@ def run_recorder(ctx, facts, scen):
     # judge every save→load pair and every expire with the theorem predicates
     jops, jmeta = [], []
     saved = None
+    since_save = 0
     stats = {"saveload_pairs": 0, "expire_calls": 0, "events_recorded": 0, "dropped_by_load": 0, "dropped_by_expire": 0,
              "loads_without_file": 0, "boundary_exact": 0, "unsorted_histories": 0, "lost_after_save": 0}
     retention = facts["c20"]["load_retention_s"]
@@ -127,13 +130,18 @@ def run_recorder(ctx, facts, scen):
         f = o.split()
         if f[1] == "reset":
             saved = None
+            since_save = 0
         elif f[1] == "rec":
             stats["events_recorded"] += 1
+            since_save += 1
         elif f[1] == "save":
             saved = snap_map(impl[i - 1]) if impl[i - 1].startswith("snap") else None
+            since_save = 0
         elif f[1] == "load" and "now=" in l:
             now = l.rsplit("now=", 1)[1]
             after = snap_map(impl[i + 1]) if i + 1 < len(impl) and impl[i + 1].startswith("snap") else None
+            stats["lost_after_save"] += since_save
+            since_save = 0
             if saved is None:
                 stats["loads_without_file"] += 1
                 continue
